@@ -2,7 +2,7 @@
 from itertools import combinations
 
 from .. import spaces, binprog
-from ..common import Result, gmv, mvdict, eq_elem, show, cfg_name, cfg_repro
+from ..common import nmv, Result, gmv, mvdict, eq_elem, show, cfg_name, cfg_repro
 from ..harness import violation
 from ..oracle import make_algebra, ref_from_config
 from ..ring import P, Trap, iszero
@@ -43,6 +43,15 @@ def shards(tier, seed):
     for t in [(2, 0, 0), (1, 1, 0), (3, 0, 0), (2, 0, 1), (1, 1, 1)]:
         sh += mk('reverse/conjugate antiautomorphism, involute automorphism of kingdon\'s gp', spaces.cfg_pqr(*t),
                  ('S', 2), ('S', 2), 3, kind='morph')
+    # graded algebras: operands that store part of a grade (as results of filter() and, with a null generator, of products do).
+    # Only grade() is asked: the generated unary operators refuse such operands in graded mode (consequence of finding F6, see C13).
+    for t, spec in [((3, 0, 0), ('S', None)), ((2, 0, 1), ('S', None)), ((2, 0, 0), ('T', None))]:
+        sh += mk('graded=True: grade() on operands storing incomplete grades (all subsets d=3, all ordered tuples d=2)',
+                 {**spaces.cfg_pqr(*t), 'options': {'graded': True}}, spec, ('B',), 2, kind='grade')
+    # numbers as the other operand: coefficient containers x number kinds, the scalar blade stored or not
+    for t in [(2, 0, 0), (1, 0, 1)]:
+        sh += mk('mv +/- number and number +/- mv: {list,int ndarray,float ndarray,2-d int ndarray,Fraction} coefficients x {int,float,complex,Fraction,bool} numbers',
+                 spaces.cfg_pqr(*t), ('T', 3), ('B',), 1, kind='num')
     if tier == 'thorough':
         sh += mk('add/sub: d=3 subsets <=3 blades', spaces.cfg_pqr(2, 0, 1), ('S', 3), ('S', 3), 16, kind='bin')
         sh += mk('add/sub: d=3 all 256 subsets vs empty and full', spaces.cfg_pqr(3, 0, 0), ('S', None), ('list', [[], list(range(8)), [0, 1, 2, 4, 3, 5, 6, 7]]), 4, kind='bin')
@@ -83,7 +92,7 @@ def run_shard(shard):
         return run_sequence(run_shard, shard)
     res = Result()
     cfg = shard['cfg']
-    alg = make_algebra(cfg)
+    alg = make_algebra(cfg, **cfg.get('options', {}))
     ref = ref_from_config(cfg)
     gr = {k: len(ref.name_to_blade(alg.bin2canon[k])[1]) for k in alg.bin2canon}
     name = cfg_name(cfg)
@@ -177,6 +186,52 @@ def run_shard(shard):
                         res.violate(violation(f'grade:keys', f'{name} grade{gs} keys {ka}: result stores blades {sorted(g)}', case_for(ka), sorted(exp), sorted(g), repro))
             if len(res.samples) < 1 and len(ka) >= 3:
                 res.sample({'config': name, 'op': 'grade', 'keys': list(ka), 'selections': len(sels)})
+    elif kind == 'num':
+        import numpy as np
+        from fractions import Fraction
+        numbers = [3, 0.5, -2.25, 1.5 + 2j, Fraction(1, 3), True, 10 ** 20 + 1]
+        for ka, _ in binprog.pairs({**shard, 'diag': True}, alg):
+            n = len(ka)
+            if not n:
+                continue
+            conts = [('list-int', lambda: [2 + i for i in range(n)]),
+                     ('ndarray-int', lambda: np.arange(2, 2 + n)),
+                     ('ndarray-float', lambda: np.arange(2, 2 + n) / 4),
+                     ('ndarray-int-2d', lambda: np.arange(2, 2 + 3 * n).reshape(n, 3)),
+                     ('list-Fraction', lambda: [Fraction(2 + i, 7) for i in range(n)]),
+                     ('list-of-int-arrays', lambda: [np.arange(i, i + 3) for i in range(n)])]
+            for cname, mkv in conts:
+                for num in numbers:
+                    if isinstance(num, Fraction) and 'ndarray' in cname or (isinstance(num, int) and num > 2 ** 62 and 'array' in cname):
+                        continue
+                    for form, th, sa, sb in [('mv+n', lambda x: x + num, 1, 1), ('n+mv', lambda x: num + x, 1, 1),
+                                             ('mv-n', lambda x: x - num, 1, -1), ('n-mv', lambda x: num - x, -1, 1)]:
+                        res.evals += 1
+                        res.nontrivial += 1
+                        vals = mkv()
+                        x = nmv(alg, ka, vals)
+                        ref_vals = [v for v in mkv()]
+                        exp = {k: (v if sa > 0 else -v) for k, v in zip(ka, ref_vals)}
+                        exp[0] = (exp[0] + sb * num) if 0 in exp else sb * num
+                        what = f'{name} {form} keys {ka} coefficients {cname} number {num!r}'
+                        repro = head + f"# {what}"
+                        try:
+                            got, dup = mvdict(th(x))
+                        except Exception as e:
+                            res.violate(violation(f'num:{form}:{cname}:raises', f'{what} raises {type(e).__name__}: {e}', case_for(ka), '', repr(e), repro))
+                            continue
+                        ok = not dup and set(exp) <= set(got)
+                        for k in got:
+                            g, w = got[k], exp.get(k, 0)
+                            if not np.array_equal(np.asarray(g, dtype=object) if isinstance(w, Fraction) or isinstance(g, Fraction) else np.asarray(g),
+                                                  np.asarray(w, dtype=object) if isinstance(w, Fraction) or isinstance(g, Fraction) else np.asarray(w)):
+                                ok = False
+                        if not ok:
+                            res.violate(violation(f'num:{form}:{cname}:{type(num).__name__}', f'{what}: wrong coefficients', case_for(ka), str(exp), str(got), repro))
+                        # the operand itself is not changed
+                        if not all(np.array_equal(np.asarray(a_), np.asarray(b_)) for a_, b_ in zip(list(x.values()), list(mkv()))):
+                            res.violate(violation(f'num:{form}:{cname}:operand-changed', f'{what}: the operand was modified', case_for(ka), str(list(mkv())), str(list(x.values())), repro))
+        res.sample({'config': name, 'kind': 'mv +/- number', 'numbers': [repr(x) for x in numbers]})
     elif kind == 'morph':
         for ka, kb in binprog.pairs(shard, alg):
             a, b = gmv(alg, ka, 'a'), gmv(alg, kb, 'b')
